@@ -62,8 +62,12 @@ Theorem C06_mempool_no_shared_outpoint : forall ops : list pool_op,
 Proof. exact mempool_no_shared_outpoint. Qed.
 Print Assumptions C06_mempool_no_shared_outpoint.
 
+(* A transaction of any type except SideChainPow (which first evicts the
+   SideChainPow transactions of its own side chain, then faces the same slot
+   check) that spends an outpoint held by a pool member is refused. *)
 Theorem C06_mempool_rejects_conflict : forall mat cur s p t op,
-  pinv p -> In op (pool_inputs p) -> In op (t_ins t) -> pool_append mat cur s p t = (p, false).
+  pinv p -> (forall g, t_side t <> SPow g) ->
+  In op (pool_inputs p) -> In op (t_ins t) -> pool_append mat cur s p t = (p, false).
 Proof. exact mempool_rejects_conflict. Qed.
 Print Assumptions C06_mempool_rejects_conflict.
 
